@@ -8,8 +8,12 @@ Decides from the syntax tree / CFG of batch/batch/semaphore.py and batch/batch/w
   R3 liveness  acquire grants immediately iff (queue empty and value >= weight), otherwise enqueues and waits on the enqueued
                event; release adds the weight back, then loops while the queue is non-empty, wakes the head iff it fits
                (set + popleft + decrement together, atomically) and stops only when the head does not fit
-  R4 pairing   the context manager releases exactly the weight it acquired; every use of `cpu_sem` in worker.py is
-               `async with <worker>.cpu_sem(w)` (or the construction / a read of `.value`)
+  R4 pairing   the context manager releases exactly the weight it acquired; EVERY acquisition of `cpu_sem` under batch/batch/worker/ (all files; thorough tier:
+               all of batch/batch) is either `async with <worker>.cpu_sem(w)` or a manual `await S.acquire(w)` that is followed on every exit of the function -
+               normal, exception, cancellation at any later await; CFG with exception edges, statements outside any try escape directly - by exactly one
+               `S.release(w')` with w' = w (linear normal forms with opaque `mod c` atoms compared, no evaluation), and no release is reachable unless an acquire
+               COMPLETED (acquire inside the try whose finally releases; release inside `async with`).  Same-class helpers are inlined when the release lives in
+               one.  No user writes `.value` or manipulates `.queue` of the semaphore.  At least two acquisition sites (DockerJob.run, JVMJob.run) must be found
 Does not decide: schedules as such; cancellation of a *waiting* acquirer is outside the property's quantifier (reported as INFO).
 """
 from __future__ import annotations
@@ -27,7 +31,8 @@ META = dict(
     category='other',
     text='Structural necessary conditions of safety/FIFO/liveness of the weighted semaphore decided on the CFG: guard dominance with '
          'atomicity between suspension points, exhaustive evaluation of the extracted guards over the order relation x queue emptiness, '
-         'closed set of queue operations, acquire/release pairing on all exits of the context manager and at every use site in the worker. '
+         'closed set of queue operations, acquire/release pairing on all exits of the context manager and at every use site in the worker '
+         '(async with, or manual acquire/release checked on the CFG with exception edges: release on every exit, only after a completed acquire, once, same weight). '
          'Not a proof over interleavings: the rules are the invariants an interleaving argument needs, checked statement by statement.',
     note='Trusted: CPython ast; engines/pyfacts CFG; asyncio runs one coroutine at a time and only switches at await. '
          'Not decided: cancellation of a waiting acquirer (outside the quantifier), weights above capacity.',
@@ -286,9 +291,6 @@ def _ctx_manager(ctx: Ctx, m: pf.Module) -> None:
     ctx.check(ok, 'R4', f'{F}::{CLS}.__call__', f'does not return {CM}(self, weight)', m.path, call.lineno)
 
 
-WEIGHT_SAMPLES = (1, 250, 500, 999, 1000, 1500, 2000, 4000, 8000, 16000)
-
-
 def _strip_int(e: ast.AST) -> ast.AST:
     while isinstance(e, ast.Call) and isinstance(e.func, ast.Name) and e.func.id == 'int' and len(e.args) == 1 and not e.keywords:
         e = e.args[0]
@@ -296,27 +298,27 @@ def _strip_int(e: ast.AST) -> ast.AST:
 
 
 def _weight_relation(fn: pf.FuncDef, a: ast.AST, r: ast.AST):
-    """('same', None) | ('differs', (valuation, va, vr)) | ('unknown', why) for the weight acquired vs the weight released."""
+    """('same', None) | ('differs', (normal form acquired, normal form released, difference)) | ('unknown', why) for the weight acquired vs released.
+    Decided by comparing linear normal forms (cf.weight_normal_form); nothing is evaluated."""
     a2, r2 = _strip_int(pf.expand_locals(fn, a)), _strip_int(pf.expand_locals(fn, r))
-    if pf.nsrc(a2) == pf.nsrc(r2):
-        # the same expression is evaluated twice: its atoms must not be rebound in between
+    na, nr = cf.weight_normal_form(a2), cf.weight_normal_form(r2)
+    if pf.nsrc(a2) == pf.nsrc(r2) or (na is not None and na == nr):
+        # the same value only if the atoms are not rebound between the two evaluations
         params = {x.arg for x in fn.args.posonlyargs + fn.args.args + fn.args.kwonlyargs}
         asg = pf.assignments(fn)
-        for nme in pf.names_in(a2):
+        for nme in pf.names_in(a2) | pf.names_in(r2):
             if nme in asg and not (nme in params and len(asg[nme]) == 1):
                 return 'unknown', f'`{nme}` is assigned more than once in the function'
-        attrs = {pf.nsrc(x) for x in ast.walk(a2) if isinstance(x, ast.Attribute)}
+        attrs = {pf.nsrc(x) for e in (a2, r2) for x in ast.walk(e) if isinstance(x, ast.Attribute)}
         for x in pf.walk_shallow(fn):
             if isinstance(x, ast.Attribute) and isinstance(x.ctx, (ast.Store, ast.Del)) and pf.nsrc(x) in attrs:
                 return 'unknown', f'`{pf.nsrc(x)}` is reassigned inside the function'
         return 'same', None
-    try:
-        d = cf.differing_point(a2, r2, WEIGHT_SAMPLES)
-    except cf.NotArithmetic as e:
-        return 'unknown', f'`{e}` is not an integer expression over names'
-    if d is not None:
-        return 'differs', d
-    return 'unknown', f'`{pf.nsrc(a2)}` and `{pf.nsrc(r2)}` agree on all sampled weights but are written differently'
+    if na is None or nr is None:
+        bad_ = a2 if na is None else r2
+        return 'unknown', f'`{pf.nsrc(bad_)}` is outside the linear fragment (+, -, * const, // const, % const over names)'
+    diff = {k: v for k, v in ((k, nr.get(k, 0) - na.get(k, 0)) for k in set(na) | set(nr)) if v != 0}
+    return 'differs', (na, nr, diff)
 
 
 def _manual_site(ctx: Ctx, m: pf.Module, fn: pf.FuncDef, q: str, S: str, orig: pf.Module) -> Tuple[int, int]:
@@ -352,6 +354,17 @@ def _manual_site(ctx: Ctx, m: pf.Module, fn: pf.FuncDef, q: str, S: str, orig: p
     P = cf.pairing(cfg, lambda n: acq_call(n) is not None, lambda n: rel_call(n) is not None)
     if not P.acquires and not P.releases:
         return 0, 0
+    if not P.acquires:
+        # a manual release inside `async with S(w)`: the manager releases again on exit
+        par = m.parents()
+        for r in P.releases:
+            cur = par.get(r.ast)
+            while cur is not None and cur is not fn:
+                if isinstance(cur, ast.AsyncWith) and any(isinstance(i.context_expr, ast.Call) and pf.nsrc(i.context_expr.func) == S for i in cur.items):
+                    ctx.bad('R4', base + '::released once', f'`{r.text()}` inside `async with {S}(...)`: the context manager releases the same acquisition again on exit - '
+                            'value exceeds the capacity and more CPU is granted than the worker has (safety)', m.path, r.lineno)
+                    return 0, 1
+                cur = par.get(cur)
     ctx.need(P.acquires, f'{base}: {S}.release(...) in a function that never acquires (pairing across functions is not analysed)')
     a0 = acq_call(P.acquires[0])
     assert a0 is not None
@@ -414,10 +427,13 @@ def _manual_site(ctx: Ctx, m: pf.Module, fn: pf.FuncDef, q: str, S: str, orig: p
                 if rel == 'same':
                     ctx.ok('R4', cons, wsrc)
                 elif rel == 'differs':
-                    env, va, vr = wit
-                    ctx.bad('R4', cons, f'acquires `{wsrc}` but releases `{pf.nsrc(rc.args[0])}`: with {", ".join(f"{k} = {v}" for k, v in env.items())} the job takes {va} and gives back {vr}: '
-                            + ('capacity leaks with every job until waiters that fit the idle worker stay blocked (liveness)' if vr < va else
-                               'value grows beyond the capacity and jobs are over-granted (safety)'), m.path, r.lineno)
+                    na, nr, diff = wit
+                    mods = [k for k in diff if ' mod ' in k]
+                    ctx.bad('R4', cons, f'acquires `{wsrc}` but releases `{pf.nsrc(rc.args[0])}`: normal forms {cf.wlin_str(na)} vs {cf.wlin_str(nr)}, released - acquired = {cf.wlin_str(diff)}, '
+                            'which is not identically zero'
+                            + (f' (it is -{mods[0]}: every weight that is not a multiple of the divisor, e.g. 250 mcpu with divisor 1000, gives back less than it took)' if mods and diff[mods[0]] < 0 else '')
+                            + ': the semaphore\'s value drifts with every such job - short: a head waiter that fits the idle worker stays blocked (liveness); over: more than the capacity is granted (safety)',
+                            m.path, r.lineno, extra={'acquired': cf.wlin_str(na), 'released': cf.wlin_str(nr)})
                 else:
                     raise AnalysisError(f'{cons}: cannot decide whether the released weight equals the acquired one ({wit})')
     return len(P.acquires), len({id(rel_call(r)) for r in P.releases})
@@ -477,8 +493,23 @@ def _worker_uses(ctx: Ctx) -> None:
             elif isinstance(p, ast.Attribute) and p.value is n and p.attr in ('acquire', 'release') and isinstance(par.get(p), ast.Call) and par[p].func is p:
                 ctx.need(fn is not None, f'{rel}: {pf.nsrc(par[p])} at module level')
                 manual.setdefault(id(fn), (fn, q, set()))[2].add(pf.nsrc(n))  # type: ignore[arg-type]
+            elif isinstance(p, ast.Assign) and p.value is n and len(p.targets) == 1 and isinstance(p.targets[0], ast.Name) and fn is not None:
+                # local alias `sem = <worker>.cpu_sem`: every use of the alias must be one of the analysed forms
+                alias = p.targets[0].id
+                ctx.need(pf.single_def(fn, alias) is n, f'{rel}::{q}: alias `{alias}` of cpu_sem is assigned more than once')
+                for x in pf.walk_shallow(fn):
+                    if not (isinstance(x, ast.Name) and x.id == alias and isinstance(x.ctx, ast.Load)):
+                        continue
+                    px = par.get(x)
+                    if isinstance(px, ast.Attribute) and px.value is x and px.attr in ('acquire', 'release') and isinstance(par.get(px), ast.Call) and par[px].func is px:
+                        manual.setdefault(id(fn), (fn, q, set()))[2].add(alias)
+                    elif isinstance(px, ast.Call) and px.func is x and isinstance(par.get(px), ast.withitem) and isinstance(par.get(par[px]), ast.AsyncWith):
+                        ctx.check(len(px.args) == 1 and not px.keywords, 'R4', f'{rel}::{q}::{pf.nsrc(px)}', 'cpu_sem(...) is not called with exactly the weight', m.path, x.lineno)
+                        n_with += 1
+                    else:
+                        raise AnalysisError(f'{rel}::{q}: unrecognised use of the cpu_sem alias `{alias}`: `{pf.nsrc(px) if px is not None else alias}`')
             else:
-                raise AnalysisError(f'{rel}::{q}: unrecognised use of cpu_sem: `{pf.nsrc(p) if p is not None else pf.nsrc(n)}` (aliasing / handing over the semaphore is not analysed)')
+                raise AnalysisError(f'{rel}::{q}: unrecognised use of cpu_sem: `{pf.nsrc(p) if p is not None else pf.nsrc(n)}` (handing over the semaphore is not analysed)')
         covered: set = set()
         pending = []
         for fn, q, recvs in manual.values():
@@ -524,12 +555,13 @@ def _cancel_info(ctx: Ctx, m: pf.Module, cls: ast.ClassDef) -> None:
 def run(ctx: Ctx) -> None:
     ctx.explanation = ('CFG guard-dominance with await-atomicity for every decrement of the counter, exhaustive evaluation of the extracted guards over '
                        '{value<w, value==w, value>w} x {queue empty, non-empty}, closed set of deque operations, must-pass analysis of the wake loop, '
-                       'pairing of acquire/release in the context manager and closure over all uses of cpu_sem in worker.py.')
+                       'pairing of acquire/release in the context manager and closure over all uses of cpu_sem under batch/batch/worker (manual pairing on the CFG with exception edges).')
     ctx.rule('R1', 'every `self.value -= w` is reached only through a test edge implying self.value >= w, with no await / write in between', 2)
     ctx.rule('R2', 'queue is a deque used only via append / [0] / popleft / emptiness tests; fast path requires an empty queue; tuple layout agrees', 7)
     ctx.rule('R3', 'acquire grants immediately iff queue empty and fits, else enqueues and waits; release gives back, then wakes heads while they fit '
                    '(set+popleft+decrement together) and stops only when the head does not fit', 13)
-    ctx.rule('R4', 'context manager releases exactly what it acquired on exit; all worker uses of cpu_sem are `async with cpu_sem(w)`', 7)
+    ctx.rule('R4', 'context manager releases exactly what it acquired on exit; every worker acquisition of cpu_sem is `async with cpu_sem(w)` or a manual acquire '
+                   'released exactly once with the same weight on every exit and never without a completed acquire; nobody writes .value / .queue', 7)
     ctx.assume('asyncio runs one coroutine at a time and switches only at await; asyncio.Event.set wakes every waiter of that event')
     ctx.assume('requested weights do not exceed the capacity (quantifier of the property)')
     m = pf.load(F)
